@@ -138,7 +138,7 @@ def jobs(tier, seed):
                                        'horizon': 100000}})
     # round-trip time above the initial RTO: spurious retransmissions produce duplicate segments and duplicate ACKs
     for cc in ('reno', 'cubic'):
-        for m in (4, 6) if tier == 'quick' else (4, 6, 8, 13):
+        for m in (4, 6, 8) if tier == 'quick' else (4, 6, 8, 10, 13):
             js.append({'harness': 'reliable', 'weight': 100,
                        'cfg': {'cc': cc, 'm': m, 'kd': m + 3, 'ka': 2, 'max_drops': 1, 'd1': 1.5, 'd2': 1.5, 'rtt0': 1.0,
                                'horizon': 100000}})
